@@ -58,4 +58,18 @@ example : sccs signedPerm one3 = signedPerm := by
     · exact ⟨0, 1, Or.inl rfl, by funext k; fin_cases k <;> simp [col3, signedPerm, one3]⟩
     · exact ⟨1, -1, Or.inr rfl, by funext k; fin_cases k <;> simp [col3, signedPerm, one3]⟩
 
+/-- the orthorhombic Voigt pattern is satisfiable by a matrix with nine non-zero entries -/
+example (a b c d e f g h i : ℝ) : OrthoPat (orthoM a b c d e f g h i) := by
+  intro p q hpq
+  fin_cases p <;> fin_cases q <;> simp at hpq <;> simp [orthoM]
+
+/-- a candidate frame as in `orthorhombic_mono_tric_vanish` exists for every `R` and every signed
+permutation: `P = R Sᵀ` -/
+example (R : Mat3) (π : Fin 3 → Fin 3) (ε : Fin 3 → ℝ) :
+    tr (mmul R (tr (sperm π ε))) = mmul (sperm π ε) (tr R) := by
+  rw [tr_mmul, tr_tr]
+
+example : Function.Injective (fun i : Fin 3 => nxt i) := by
+  intro a b; fin_cases a <;> fin_cases b <;> simp [nxt]
+
 end ModelR.Tensors
